@@ -126,6 +126,7 @@ fn child_main() -> ! {
     if let Some(gs) = req["globals"].as_array() {
       // a set of global utility rule files (utilDirs): accepted or rejected as a whole
       let gs = gs.clone();
+      let doc_with_globals: Option<String> = req["doc"].as_str().map(String::from);
       let r = guarded(std::panic::AssertUnwindSafe(move || {
         let mut v = vec![];
         for g in gs {
@@ -134,7 +135,12 @@ fn child_main() -> ! {
             Err(e) => return Err(format!("deserialize: {e}")),
           }
         }
-        ast_grep_config::DeserializeEnv::<SupportLang>::parse_global_utils(v).map(|_| ()).map_err(|e| err_chain(&e))
+        let globals = ast_grep_config::DeserializeEnv::<SupportLang>::parse_global_utils(v).map_err(|e| err_chain(&e))?;
+        // optionally a rule file loaded against these global utilities
+        if let Some(d) = doc_with_globals.as_deref() {
+          from_yaml_string::<SupportLang>(d, &globals).map(|_| ()).map_err(|e| format!("rule: {}", err_chain(&e)))?;
+        }
+        Ok(())
       }));
       let resp = match r {
         Err(p) => json!({"load": "panic", "msg": p, "at": last_panic_loc()}),
@@ -183,6 +189,10 @@ impl Worker {
   /// Ok(response) or Err(description of how the child died on this request)
   fn ask_globals(&mut self, globals: &[Value]) -> Result<Value, String> {
     self.ask_raw(json!({"globals": globals}))
+  }
+
+  fn ask_globals_doc(&mut self, globals: &[Value], doc: &Value) -> Result<Value, String> {
+    self.ask_raw(json!({"globals": globals, "doc": doc.to_string()}))
   }
 
   fn ask(&mut self, doc: &str, src: Option<&str>, names: &[String]) -> Result<Value, String> {
@@ -1560,6 +1570,53 @@ fn main() {
     }
   }
 
+  // ---- a LOCAL utility shadows a global one of the same id: whether the rule has a known set of
+  // node kinds is decided by the local utility (`matches` resolves to it)
+  let (mut shadow_cases, mut shadow_must_reject) = (0u64, 0u64);
+  {
+    let mut w = Worker::new();
+    let global = json!({"id": "shared", "language": "JavaScript", "rule": {"kind": "identifier"}});
+    let locals: Vec<(&str, Value, bool)> = vec![
+      ("regex", json!({"regex": "^foo$"}), false),
+      ("not-kind", json!({"not": {"kind": "number"}}), false),
+      ("has-kind", json!({"has": {"kind": "number"}}), false),
+      ("kind", json!({"kind": "number"}), true),
+      ("pattern", json!({"pattern": "foo($A)"}), true),
+    ];
+    let uses: Vec<(&str, Value)> = vec![
+      ("matches", json!({"matches": "shared"})),
+      ("all", json!({"all": [{"matches": "shared"}, {"regex": "o"}]})),
+      ("any", json!({"any": [{"matches": "shared"}, {"kind": "string"}]})),
+    ];
+    for (lname, local, has_kinds) in &locals {
+      for (uname, usage) in &uses {
+        for with_local in [true, false] {
+          let mut doc = json!({"id": "s", "language": "JavaScript", "rule": usage});
+          if with_local {
+            doc["utils"] = json!({"shared": local});
+          }
+          shadow_cases += 1;
+          let must_load = !with_local || *has_kinds;
+          if !must_load {
+            shadow_must_reject += 1;
+          }
+          match w.ask_globals_doc(&[global.clone()], &doc) {
+            Err(how) => rep.violation(&format!("shadowed-global-util:load-crash:{how}"), json!({"oracle": 1, "globals": [global], "doc": doc})),
+            Ok(resp) => match (must_load, resp["load"].as_str().unwrap_or("")) {
+              (_, "panic") => rep.violation("shadowed-global-util:load-panic", json!({"oracle": 1, "globals": [global], "doc": doc, "panic": resp["msg"]})),
+              (false, "ok") => rep.violation(
+                &format!("accepted:no-kind-bearing-atom:kind-less-local-util-shadows-a-global-util:{lname}:{uname}"),
+                json!({"oracle": 1, "globals": [global], "doc": doc, "broken_conditions": "the rule cannot name a set of node kinds: `matches: shared` resolves to the local utility, which has none"}),
+              ),
+              (true, "err") => rep.violation("shadowed-global-util:consistent-rule-rejected", json!({"oracle": 1, "globals": [global], "doc": doc, "error": resp["msg"]})),
+              _ => {}
+            },
+          }
+        }
+      }
+    }
+  }
+
   // ---- oracle 1 over every document at distance one
   // distinct documents only: a document reachable from two bases is judged once, at the first
   // base in enumeration order (decided sequentially, so the choice does not depend on timing).
@@ -1731,6 +1788,7 @@ fn main() {
     "broken_condition_classes": tag_counts,
     "distinct_rejection_messages": errors.len(),
     "rejection_messages": errors,
+    "shadowed_global_utility_documents": shadow_cases, "shadowed_global_utility_documents_that_must_be_rejected": shadow_must_reject,
     "global_utility_sets": g_sets, "global_utility_cycles_rejected": g_cyclic_rejected, "global_utility_acyclic_twins_accepted": g_acyclic_accepted,
     "dimensions": {"rule": d.r, "utils": d.u, "constraints": d.k, "transform": d.t, "rewriters": d.w, "fix_content": d.fc, "fix_form": d.ff},
     "same_node_routes": ROUTES,
